@@ -36,7 +36,16 @@ def spawn(seed, n, env_extra):
     for line in p.stdout.splitlines():
         if line.startswith("C18WORKER "):
             return json.loads(line[len("C18WORKER "):])
+    if p.returncode in (-6, -7, -8, -11, 134, 135, 136, 139):
+        # the worker only imports the repository and runs pipelines: killed by SIGABRT / SIGBUS / SIGFPE / SIGSEGV = memory corrupted by
+        # compiled code of the implementation (the kernels run without bounds checking)
+        raise WorkerCrashed(f"worker process killed by signal {abs(p.returncode) if p.returncode < 0 else p.returncode - 128} "
+                            f"({env_extra}): {p.stderr[-400:]}")
     raise MachineryFailure(f"worker failed ({env_extra}): {p.stderr[-800:]}")
+
+
+class WorkerCrashed(Exception):
+    pass
 
 
 def footprints(chk, rng, tier):
@@ -121,8 +130,17 @@ def run(tier):
     envs.append(("rev", {"NUMBA_NUM_THREADS": "3", "C18_ORDER": "reverse"}))
     if tier == "quick":
         envs = [e for e in envs if e[0] in ("t1", "t3", "t16", "poff", "rev")]
-    with ThreadPoolExecutor(max_workers=len(envs)) as ex:
-        results = dict(zip([e[0] for e in envs], ex.map(lambda e: spawn(seed, nprob, e[1]), envs)))
+    try:
+        with ThreadPoolExecutor(max_workers=len(envs)) as ex:
+            results = dict(zip([e[0] for e in envs], ex.map(lambda e: spawn(seed, nprob, e[1]), envs)))
+    except WorkerCrashed as exc:
+        chk.violation("interpreter_crashed", {"where": "fresh worker process"}, {"what": str(exc)[:600]},
+                      "a fresh process that only runs the pipelines was killed by a signal: " + str(exc)[:200])
+        verdicts = chk.tlc_cases("RelTrace", "RelTrace.cfg", cases, label="c18", chunk=150, parallel=6)
+        for cid, v in verdicts.items():
+            for clause in v["failed"]:
+                chk.violation("race_free", {"kernel": cid.split("#")[0][3:]}, {"detail": v["detail"]}, f"{cid}: {clause}")
+        return chk.finish()
     ref_env = "t1"
     keys = sorted(results[ref_env])
     for key in keys:
